@@ -436,6 +436,11 @@ class HTTP1Connection(httputil.HTTPConnection):
                     and (start_line.code < 100 or start_line.code >= 200)
                 ):
                     self._disconnect_on_finish = True
+                # If the response starts before the request has been read
+                # completely we cannot promise to keep the connection (it
+                # is closed if the handler finishes first).
+                if not self._read_finished:
+                    self._disconnect_on_finish = True
                 # If a 1.0 client asked for keep-alive, add the header
                 # (unless the connection is going to be closed anyway).
                 if (
